@@ -38,10 +38,28 @@ TRUSTED = ['numpy', 'pandas', 'neurodsp.filt.filter_signal', 'neurodsp.filt.fir.
 def strategy(draw, tier):
     case = draw(gen.st_analysis_case(tie_rich=draw(st.integers(0, 2)) == 0))
     case['via'] = draw(st.sampled_from(['func', 'func', 'obj']))
+    case['np_errstate'] = draw(st.integers(0, 7)) == 0
     return case
 
 
 def run(case, x, return_samples):
+    if case.get('np_errstate'):
+        # the caller runs with numpy's floating-point errors turned into exceptions (np.seterr(divide='raise', invalid='raise'))
+        import traceback
+        from bycycle.features import compute_features
+        sig, fs, fr = gen.call_args(case, x)
+        try:
+            with warnings.catch_warnings(), np.errstate(divide='raise', invalid='raise'):
+                warnings.simplefilter('ignore')
+                return compute_features(sig, fs, fr, **gen.cf_kwargs(case, return_samples=return_samples))
+        except FloatingPointError as exc:
+            last = traceback.extract_tb(exc.__traceback__)[-1].filename.replace('\\', '/')
+            if '/bycycle/' not in last or '/tests/' in last:
+                raise Discard('a trusted library raises FloatingPointError under np.errstate(raise) on this input')
+            raise Violation('raises:FloatingPointError-under-errstate', '%s in %s' % (exc, last.split('/bycycle/', 1)[1]))
+        except Exception as exc:  # noqa
+            from harness import innermost_repo_frame
+            raise Violation('raises:%s@%s' % (type(exc).__name__, innermost_repo_frame(exc.__traceback__)), str(exc)[:200])
     if case['via'] == 'func':
         return pipeline.analyse(case, x, return_samples=return_samples)
     kw = gen.cf_kwargs(case, return_samples=return_samples)
@@ -65,7 +83,7 @@ def check(case, rec):
         pipeline.trusted_burst_mask(case, x)      # precondition: the trusted detector is defined here
     df = run(case, x, rs)
     rec.label(*gen.case_labels(case))
-    rec.label('via:' + case['via'])
+    rec.label('via:' + case['via'], 'np-errstate-raise' if case.get('np_errstate') else 'np-errstate-default')
     if not isinstance(df, pd.DataFrame):
         raise Violation('not-a-table', type(df).__name__)
     want = pipeline.SHAPE_COLS + pipeline.BURST_COLS[case['method']] + ['is_burst']
